@@ -403,7 +403,7 @@ def run(R):
 def replay(R, payload):
     """Re-run the recorded case on the current tree; True iff the oracle still rejects."""
     import numpy as np
-    case = payload.get("case", {})
+    case = payload.get("case") or (payload.get("disagreements") or [{}])[0].get("case", {})
     if "data" not in case:
         return True
     data = case["data"]
